@@ -196,3 +196,44 @@ def render_chain(ch: list[dict], name: str = "a") -> tuple[str, list[str], bool]
         elif below_set and (f["kind"] == "with" or f["binds"]):
             editable = False
     return inner + "\n", keys, editable
+
+
+# ---------------------------------------------------------------------------
+# Damage.tla descriptors -> text
+
+def render_damaged(d: dict, seed: int = 0) -> str:
+    if d["kind"] == "soup":
+        return " ".join(d["toks"])
+    toks = d["toks"]
+    parts, cut = [], None
+    for i, t in enumerate(toks, start=1):
+        if t in (S, O):
+            parts.append(" ")
+            continue
+        if d["kind"] == "damaged" and i == d["at"]:
+            f = d["fault"]
+            if f == "delete":
+                continue
+            if f == "duplicate":
+                parts.append(t + " " + t)
+                continue
+            if f == "insert":
+                parts.append(d["delim"] + " " + t)
+                continue
+            if f == "cut_after":
+                parts.append(t)
+                cut = True
+                break
+            if f == "cut_inside":
+                parts.append(t[: max(1, len(t) // 2)])
+                cut = True
+                break
+        parts.append(t)
+    body = "".join(parts)
+    if cut:
+        text = d["pre"] + ("(" if d.get("paren") else "") + body
+    else:
+        if d.get("paren"):
+            body = "(" + body + ")"
+        text = d["pre"] + body + d["post"] + "\n"
+    return text.replace("@U@", PALETTE[seed % len(PALETTE)])
